@@ -22,9 +22,11 @@ class Unsupported(Exception):
 
 
 NONE = 0
+OPAQUE = -2  # a value the model does not track (argument tuples, strings, ...): never None
 SENTINEL = 1  # the pool's stop event object when it travels through the queue
 
 MODELLED = ("ThreadPool", "FutureResult", "EventData")
+GLOBAL_MARKS = ("stop_returned", "pool_serving")
 
 
 class Universe(object):
@@ -415,10 +417,10 @@ class ExprCompiler(object):
             return const("bool", v)
         if isinstance(v, int):
             return const("int", v)
-        return const("Opaque", NONE)
+        return const("Opaque", OPAQUE)
 
     def c_JoinedStr(self, expr, ctx):
-        return const("Opaque", NONE)
+        return const("Opaque", OPAQUE)
 
     def c_Name(self, expr, ctx):
         name = expr.id
@@ -431,7 +433,7 @@ class ExprCompiler(object):
             full = ctx.lvar(name)
             return Val(sort, (lambda env, n=full: env.l(n)), base)
         if name in ("queue", "threading", "logging"):
-            return const("Opaque", NONE)
+            return const("Opaque", OPAQUE)
         if name in ctx.lo.scenario_consts:
             return ctx.lo.scenario_consts[name]
         raise Unsupported("name {0}".format(name))
@@ -470,7 +472,7 @@ class ExprCompiler(object):
                 return Val("Cond", recv.fn, recv.base)
         if recv.sort in ("Opaque", "Logger", "Thread", "Task", "id"):
             # module attributes (queue.Empty), thread.name, method.__name__, logger.name
-            return Val("Opaque", lambda env: NONE, base=expr.attr)
+            return Val("Opaque", lambda env: OPAQUE, base=expr.attr)
         raise Unsupported("attribute .{0} of {1}".format(expr.attr, recv.sort))
 
     def c_UnaryOp(self, expr, ctx):
@@ -491,7 +493,7 @@ class ExprCompiler(object):
     def c_BinOp(self, expr, ctx):
         a, b = self.compile(expr.left, ctx), self.compile(expr.right, ctx)
         if a.sort == "Opaque" or b.sort == "Opaque":
-            return const("Opaque", NONE)
+            return const("Opaque", OPAQUE)
         if isinstance(expr.op, ast.Add):
             return Val("int", lambda env: add(a.fn(env), b.fn(env)))
         if isinstance(expr.op, ast.Sub):
@@ -524,12 +526,12 @@ class ExprCompiler(object):
 
     def c_List(self, expr, ctx):
         if not expr.elts:
-            return const("Opaque", NONE)
+            return const("Opaque", OPAQUE)
         raise Unsupported("list expression")
 
     def c_Dict(self, expr, ctx):
         if not expr.keys:
-            return const("Opaque", NONE)
+            return const("Opaque", OPAQUE)
         raise Unsupported("dict expression")
 
     def c_Subscript(self, expr, ctx):
@@ -559,7 +561,7 @@ class ExprCompiler(object):
             if isinstance(f.value, ast.Name) and f.value.id == "threading" and f.attr == "current_thread":
                 return Val("Thread", lambda env: env.g("T{0}.worker".format(env.tid)))
             if f.attr == "format":
-                return const("Opaque", NONE)
+                return const("Opaque", OPAQUE)
             recv = self.compile(f.value, ctx)
             if recv.sort == "Event" and f.attr == "is_set":
                 return Val("bool", lambda env: event_flag(env, recv, U))
@@ -571,7 +573,7 @@ class ExprCompiler(object):
             if recv.sort == "Thread" and f.attr == "is_alive":
                 return Val("bool", lambda env: eq(env.arr("W.state", recv.fn(env), U.W), 2))
             if recv.sort == "Opaque" and f.attr in ("getLogger",):
-                return const("Opaque", NONE)
+                return const("Opaque", OPAQUE)
         raise Unsupported("call in expression: {0}".format(ast.dump(expr)[:100]))
 
 
@@ -821,9 +823,9 @@ class StmtLowering(object):
         if len(args) > len(params) and not fn.args.vararg:
             raise Unsupported("too many arguments for {0}".format(name))
         if fn.args.vararg:
-            bound[fn.args.vararg.arg] = const("Opaque", NONE)
+            bound[fn.args.vararg.arg] = const("Opaque", OPAQUE)
         if fn.args.kwarg:
-            bound[fn.args.kwarg.arg] = const("Opaque", NONE)
+            bound[fn.args.kwarg.arg] = const("Opaque", OPAQUE)
         for pname, val in bound.items():
             effects.append(self.set_local(callee, pname, val))
 
@@ -856,12 +858,18 @@ class StmtLowering(object):
 
     # -- unwinding -----------------------------------------------------------------------
     def return_target(self, ctx, target):
+        # cleanups between here and the function boundary, innermost first ...
+        pending = []
         for entry in reversed(ctx.unwind):
             if entry[0] == "func":
                 break
+            if entry[0] in ("with", "finally"):
+                pending.append(entry)
+        # ... wrapped from the outermost in, so that the innermost runs first
+        for entry in reversed(pending):
             if entry[0] == "with":
                 target = entry[1](target)
-            elif entry[0] == "finally":
+            else:
                 target = self.block(entry[1], entry[2], target)
         return target
 
@@ -941,7 +949,7 @@ class StmtLowering(object):
     def s_Pass(self, stmt, ctx, k):
         return self.simple(stmt.lineno, "pass", None, k)
 
-    def prim_node(self, line, label, outcomes_fn, ctx, k, result_name=None, result_sort="id", result_base=None):
+    def prim_node(self, line, label, outcomes_fn, ctx, k, result_name=None, result_sort="id", result_base=None, raises=()):
         """
         Node for a primitive operation: outcomes_fn(env) -> [PrimOutcome].
         """
@@ -957,7 +965,14 @@ class StmtLowering(object):
                 targets[exc_class] = self.raise_target(ctx, exc_class)
             return targets[exc_class]
 
-        # resolve raise targets eagerly for the classes the primitive can raise
+        # raise targets are resolved now (lowering time), never while the system runs
+        for exc_class in raises:
+            target_for(exc_class)
+        frozen = dict(targets)
+
+        def target_for(exc_class):  # noqa: F811
+            return frozen[exc_class]
+
         def run(env):
             outs = []
             for o in outcomes_fn(env):
@@ -989,6 +1004,9 @@ class StmtLowering(object):
             raise Unsupported("multiple assignment targets")
         tgt = stmt.targets[0]
         value = stmt.value
+        if isinstance(tgt, ast.Name) and tgt.id in GLOBAL_MARKS:
+            val = self.ex.compile(value, ctx)
+            return self.simple(stmt.lineno, "mark " + tgt.id, lambda env, upd, f=val.fn, n=tgt.id: upd.__setitem__(n, f(env)), k)
         # x = modelled_call(...)
         if isinstance(tgt, ast.Name):
             info = self.lo.is_modelled_call(value, ctx) if isinstance(value, (ast.Call, ast.Attribute)) else None
@@ -1014,8 +1032,8 @@ class StmtLowering(object):
             U = self.U
             effs = [
                 self.set_local(ctx, names[0], Val("Task", src.fn)),
-                self.set_local(ctx, names[1], const("Opaque", NONE)),
-                self.set_local(ctx, names[2], const("Opaque", NONE)),
+                self.set_local(ctx, names[1], const("Opaque", OPAQUE)),
+                self.set_local(ctx, names[2], const("Opaque", OPAQUE)),
                 self.set_local(ctx, names[3], Val("Future", lambda env, f=src.fn: sub(f(env), U.TASK0), "F")),
             ]
 
@@ -1392,8 +1410,8 @@ class StmtLowering(object):
                 return self.ex.compile(args[i], ctx)
             return default
 
-        def finish(label, outcomes_fn, sort="id", base=None):
-            run, _ = self.prim_node(line, label, outcomes_fn, ctx, k, result_name, sort, base)
+        def finish(label, outcomes_fn, sort="id", base=None, raises=()):
+            run, _ = self.prim_node(line, label, outcomes_fn, ctx, k, result_name, sort, base, raises)
             return Label(self.node(line, label, run, kind="prim"))
 
         # ---- logging / formatting: no-ops -------------------------------------------
@@ -1511,7 +1529,7 @@ class StmtLowering(object):
                     return [PrimOutcome(and_(free(env), nonempty), pop_front, None, env.g(b + ".item[0]")),
                             PrimOutcome(and_(free(env), not_(nonempty), may_timeout), None, "Empty", U.EXC_EMPTY)]
 
-                return finish("Queue." + name, outcomes, "Task")
+                return finish("Queue." + name, outcomes, "Task", raises=("Empty",))
             if name == "put":
                 item = as_id(arg(0), U)
                 timeout = arg(2, const("none", NONE))
@@ -1530,14 +1548,14 @@ class StmtLowering(object):
                     return [PrimOutcome(and_(free(env), not_(full)), eff, None, NONE),
                             PrimOutcome(and_(free(env), full, ne(timeout.fn(env), NONE)), None, "Full", U.EXC_FULL)]
 
-                return finish("Queue.put", outcomes, "none")
+                return finish("Queue.put", outcomes, "none", raises=("Full",))
             if name == "task_done":
                 def outcomes(env):
                     u = env.g(b + ".unfinished")
                     return [PrimOutcome(and_(free(env), gt(u, 0)), lambda env, upd: upd.__setitem__(b + ".unfinished", sub(u, 1)), None, NONE),
                             PrimOutcome(and_(free(env), le(u, 0)), None, "ValueError", U.EXC_VALUE)]
 
-                return finish("Queue.task_done", outcomes, "none")
+                return finish("Queue.task_done", outcomes, "none", raises=("ValueError",))
             if name == "join":
                 def outcomes(env):
                     return [PrimOutcome(and_(free(env), eq(env.g(b + ".unfinished"), 0)), None, None, NONE)]
@@ -1571,7 +1589,7 @@ class StmtLowering(object):
                     fail = and_(env.g("allow_start_failure"), eq(env.choice, 1))
                     return [PrimOutcome(not_(fail), eff, None, NONE), PrimOutcome(fail, None, "RuntimeError", U.EXC_RT)]
 
-                return finish("Thread.start", outcomes, "none")
+                return finish("Thread.start", outcomes, "none", raises=("RuntimeError",))
             if name == "join":
                 timeout = arg(0, const("none", NONE))
 
@@ -1604,7 +1622,7 @@ class StmtLowering(object):
 
                     return [PrimOutcome(present, eff, None, NONE), PrimOutcome(not_(present), None, "ValueError", U.EXC_VALUE)]
 
-                return finish("threads.remove", outcomes, "none")
+                return finish("threads.remove", outcomes, "none", raises=("ValueError",))
         raise Unsupported("primitive call {0}.{1} at line {2}".format(recv.sort, name, line))
 
     def _is_field(self, attr_ast, ctx):
@@ -1643,6 +1661,8 @@ class StmtLowering(object):
                 if kind.startswith("gate"):
                     gate_ok = env.g("G.flag[{0}]".format(int(kind[4:] or 0)))
                 upd = {"running": sub(env.g("running"), 1), "finished[{0}]".format(i): True}
+                if kind.startswith("open"):
+                    upd["G.flag[{0}]".format(int(kind[4:] or 0))] = True
                 if kind == "raise":
                     upd[env.lname("exc")] = U.EXC0 + i
                     outs.append((and_(here, gate_ok), upd, raise_t.pc))
@@ -1759,7 +1779,7 @@ def build_system(source, filename, universe, client_programs, allow_start_failur
     # monitors
     for name in ("running", "max_running", "start_seq"):
         init[name] = 0
-    for name in ("ran_while_stopped", "stop_returned", "bad_task", "overflow", "cb_wrong_extra", "W.overflow", "worker_died"):
+    for name in ("ran_while_stopped", "stop_returned", "pool_serving", "bad_task", "overflow", "cb_wrong_extra", "W.overflow", "worker_died"):
         init[name] = False
     init["allow_start_failure"] = bool(allow_start_failure)
     for i in range(U.M):
@@ -1845,6 +1865,7 @@ def build_system(source, filename, universe, client_programs, allow_start_failur
             if owner is None or (owner == "worker" and thr["kind"] == "worker") or owner == t:
                 init["T{0}.{1}".format(t, name)] = lo.local_init.get(name, 0)
     system.sticky_flags = ("overflow", "W.overflow", "P._queue.overflow", "bad_task", "worker_died")
+    system.spawn_targets = {lo.run_entry.pc}
     system.meta["universe"] = U
     system.meta["lowering"] = lo
     return system, lo
